@@ -503,6 +503,25 @@ fn sanitize_destination_path(dest: &Path) -> Result<&Path, std::io::Error> {
         })
 }
 
+/// whether a relative path stays inside the directory it gets joined to (same rule as zip's `enclosed_name`)
+fn is_enclosed_name(name: &Path) -> bool {
+    let mut depth = 0usize;
+    for component in name.components() {
+        match component {
+            std::path::Component::Prefix(_) | std::path::Component::RootDir => return false,
+            std::path::Component::ParentDir => {
+                if depth == 0 {
+                    return false;
+                }
+                depth -= 1;
+            }
+            std::path::Component::Normal(_) => depth += 1,
+            std::path::Component::CurDir => (),
+        }
+    }
+    true
+}
+
 /// extract all files from the archive to a target directory
 ///
 /// # Arguments
@@ -535,7 +554,9 @@ pub fn extract_to_dir<RS: Read + Seek + HasLength>(
                 &file
             };
             let target_file = target_dir.join(new_file_name);
-            if !target_file.exists() {
+            // only names that stay inside target_dir can have been extracted there before (an absolute name or one
+            // climbing with .. would make join() point outside and an unrelated existing file be reported as extracted)
+            if !is_enclosed_name(Path::new(new_file_name)) || !target_file.exists() {
                 files_filter.push(file); // need the unmapped name here
             } else {
                 extracted.push(new_file_name.into());
